@@ -383,7 +383,7 @@ class RegexPatternProvider(MorphingProvider):
 
             try:
                 return re_compile(data, flags)
-            except re.error as e:
+            except (re.error, OverflowError) as e:  # e.g. a repeat count beyond the engine limit
                 raise ValueLoadError(str(e), data)
 
         return regex_loader
